@@ -50,9 +50,10 @@ def main(argv):
             out = os.path.join(tmp, "shard%d.json" % sh)
             cmd = [sys.executable, "-m", "vf.worker", pid, tier, str(sh), str(nshards), str(seed), out, only]
             log = open(os.path.join(tmp, "shard%d.log" % sh), "w")
-            procs.append((sh, out, subprocess.Popen(cmd, cwd=VERIF_DIR, stdout=log, stderr=subprocess.STDOUT), log))
+            env = dict(os.environ, VERIF_JOURNAL=os.path.join(tmp, "shard%d.journal" % sh))
+            procs.append((sh, out, subprocess.Popen(cmd, cwd=VERIF_DIR, stdout=log, stderr=subprocess.STDOUT, env=env), log))
         limit = float(os.environ.get("VERIF_TIMEOUT", "1500" if tier == "quick" else "14400"))
-        shards, errors = [], []
+        shards, errors, crashes = [], [], []
         for sh, out, p, log in procs:
             try:
                 p.wait(timeout=max(1.0, limit - (time.time() - t0)))
@@ -63,6 +64,19 @@ def main(argv):
             finally:
                 log.close()
             if not os.path.exists(out):
+                jpath = os.path.join(tmp, "shard%d.journal" % sh)
+                if p.returncode is not None and p.returncode < 0 and os.path.exists(jpath):
+                    # the interpreter was killed by a signal (e.g. SIGSEGV) inside the code under test: the journal holds
+                    # the case that was running; it is reported as a violation with that case as the replay
+                    try:
+                        with open(jpath) as f:
+                            j = json.load(f)
+                        crashes.append({"subcheck": j["subcheck"] + "/crash", "case": j["case"],
+                                        "message": "the worker process died with signal %d while running this case "
+                                                   "(crash inside the code under test)" % (-p.returncode)})
+                        continue
+                    except Exception:  # noqa
+                        pass
                 with open(os.path.join(tmp, "shard%d.log" % sh)) as f:
                     errors.append({"subcheck": "*", "error": "shard %d died rc=%s: %s" % (sh, p.returncode, f.read()[-2000:])})
                 continue
@@ -78,6 +92,7 @@ def main(argv):
     evaluations = sum(s["evaluations"] for s in shards)
     nt = set()
     labels, per_sub, samples, violations, info = {}, {}, [], [], {}
+    violations.extend(crashes)
     for s in shards:
         nt.update(s["nt_hashes"])
         for k, v in s["labels"].items():
@@ -143,7 +158,10 @@ def main(argv):
 
     required = getattr(mod, "REQUIRED_LABELS", [])
     if not violations:
+        only_set = set(only.split(",")) if only else None
         for lab in required:
+            if only_set and lab.split(":")[0] not in only_set:
+                continue
             if labels.get(lab, 0) == 0:
                 errors.append({"subcheck": "*", "error": "required class %r never generated (inconclusive)" % lab})
 
